@@ -275,14 +275,14 @@ theorem o2_cases {cfg : Cfg} (hyp : Hyp cfg) {m w1 c1} (h : O1Challenge cfg m w1
       have ho2 := ho
       rw [← hy] at ho2
       change o2 cfg = _ at ho2
-      refine ⟨?_, w2, c2, u, by rw [ho2, hguid], hu⟩
+      refine ⟨?_, w2, c2, u, by rw [ho2]; simp only [hguid], hu⟩
       unfold keyringUsable
       rw [hch, ho2]; rfl
     · right
       have ho2 := ho
       rw [← hy] at ho2
       change o2 cfg = _ at ho2
-      refine ⟨?_, w', mm, by rw [ho2, hrej], hm⟩
+      refine ⟨?_, w', mm, by rw [ho2]; simp only [hrej], hm⟩
       unfold keyringUsable
       rw [hch, ho2]; rfl
   · obtain ⟨w', ho⟩ := sv_cookie_error (o1 cfg).srv c1 (cfg.errText e) hs hcur hg (by rw [hrej]; decide)
@@ -290,8 +290,502 @@ theorem o2_cases {cfg : Cfg} (hyp : Hyp cfg) {m w1 c1} (h : O1Challenge cfg m w1
     have ho2 := ho
     rw [← he] at ho2
     change o2 cfg = _ at ho2
-    refine ⟨?_, w', none, by rw [ho2, hrej], fun n hn => by simp at hn⟩
+    refine ⟨?_, w', none, by rw [ho2]; simp only [hrej], fun n hn => by simp at hn⟩
     unfold keyringUsable
     rw [hch, ho2]; rfl
+
+/-! ## the phases of the conversation -/
+
+/-- The bus waits for BEGIN: mechanism number `i` of the client's list was accepted, and it is the mechanism
+the environment allows. -/
+structure SAccepted (cfg : Cfg) (i : Nat) (s : SProto) : Prop where
+  base : SBase cfg s
+  state : s.srv.state = .waitingForBegin
+  cur : ∃ n inst u, s.srv.cur = some (n, inst) ∧ real.userName s.srv.world inst = some u
+  acc : accepts s.log = [mechAt i]
+  okSent : (wOk ++ cfg.guid) ∈ s.sent
+  idx : i = expectedMech cfg
+
+/-- The bus's authenticator at the start, and after the EXTERNAL challenge. -/
+def srv0 (cfg : Cfg) : Server RealWorld Inst := Server.init cfg.guid cfg.w0
+def srvExt (cfg : Cfg) (uid : Int) : Server RealWorld Inst :=
+  { srv0 cfg with cur := some (lit "EXTERNAL", .ext true (some uid)), state := .waitingForData }
+
+/-- The client's authenticator after OK on a UNIX transport. -/
+def authNeg (unix : Bool) (i : Nat) (g : Bytes) : AuthClient.Auth :=
+  { authAt unix i with guid := some g, negotiating := true }
+
+/-- One complete line is in flight, both line buffers are empty.  The index is a rank: it decreases with every
+line delivered (no phase is visited twice). -/
+inductive Phase (cfg : Cfg) : Nat → State → Prop
+  /-- nothing delivered yet: NUL and `AUTH EXTERNAL` are queued -/
+  | start (st : State) (hc : CBase st.c (authAt cfg.unix 0)) (hs : st.s = AuthServer.Proto.init cfg.guid cfg.w0)
+      (q1 : st.c2s = 0 :: (lit "AUTH EXTERNAL" ++ [13, 10])) (q2 : st.s2c = []) : Phase cfg 13 st
+  /-- the NUL byte was read -/
+  | auth0 (st : State) (hc : CBase st.c (authAt cfg.unix 0)) (hb : SBase cfg st.s)
+      (hs : st.s.srv = srv0 cfg) (ha : accepts st.s.log = [])
+      (q1 : st.c2s = lit "AUTH EXTERNAL" ++ [13, 10]) (q2 : st.s2c = []) : Phase cfg 12 st
+  | extChal (st : State) (uid : Int) (e : AuthServer.PwEnt) (h1 : cfg.w0.cfg.creds = some uid)
+      (h2 : getpwuidI cfg.w0.cfg uid = some e) (hc : CBase st.c (authAt cfg.unix 0)) (hb : SBase cfg st.s)
+      (hs : st.s.srv = srvExt cfg uid)
+      (ha : accepts st.s.log = []) (q1 : st.s2c = wData ++ [13, 10]) (q2 : st.c2s = []) : Phase cfg 11 st
+  | extResp (st : State) (uid : Int) (e : AuthServer.PwEnt) (h1 : cfg.w0.cfg.creds = some uid)
+      (h2 : getpwuidI cfg.w0.cfg uid = some e) (hc : CBase st.c (authAt cfg.unix 0)) (hb : SBase cfg st.s)
+      (hs : st.s.srv = srvExt cfg uid)
+      (ha : accepts st.s.log = []) (q1 : st.c2s = lDATA ++ [13, 10]) (q2 : st.s2c = []) : Phase cfg 10 st
+  | okSent (st : State) (i : Nat) (hc : CBase st.c (authAt cfg.unix i)) (hs : SAccepted cfg i st.s)
+      (q1 : st.s2c = (wOk ++ cfg.guid) ++ [13, 10]) (q2 : st.c2s = []) : Phase cfg 5 st
+  | negSent (st : State) (i : Nat) (g : Bytes) (hu : cfg.unix = true) (hc : CBase st.c (authNeg cfg.unix i g))
+      (hs : SAccepted cfg i st.s) (q1 : st.c2s = lNEGOTIATE ++ [13, 10]) (q2 : st.s2c = []) : Phase cfg 4 st
+  | negErr (st : State) (i : Nat) (g : Bytes) (hu : cfg.unix = true) (hc : CBase st.c (authNeg cfg.unix i g))
+      (hs : SAccepted cfg i st.s) (q1 : st.s2c = wError ++ [13, 10]) (q2 : st.c2s = []) : Phase cfg 3 st
+  | rej0 (st : State) (h0 : credsOk cfg = false) (hc : CBase st.c (authAt cfg.unix 0)) (hb : SBase cfg st.s)
+      (hs : st.s.srv = srv1 cfg) (ha : accepts st.s.log = [])
+      (q1 : st.s2c = AuthServer.rejectLine real ++ [13, 10]) (q2 : st.c2s = []) : Phase cfg 11 st
+  | auth1 (st : State) (h0 : credsOk cfg = false) (hc : CBase st.c (authAt cfg.unix 1)) (hb : SBase cfg st.s)
+      (hs : st.s.srv = srv1 cfg) (ha : accepts st.s.log = [])
+      (q1 : st.c2s = cookieAuthLine cfg.user ++ [13, 10]) (q2 : st.s2c = []) : Phase cfg 10 st
+  | ckChal (st : State) (h0 : credsOk cfg = false) (m : Bytes) (w1 : RealWorld) (c1 : AuthServer.CookieSt)
+      (ho : O1Challenge cfg m w1 c1) (hc : CBase st.c (authAt cfg.unix 1)) (hb : SBase cfg st.s)
+      (hs : st.s.srv = (o1 cfg).srv) (ha : accepts st.s.log = [])
+      (q1 : st.s2c = chalLine cfg ++ [13, 10]) (q2 : st.c2s = []) : Phase cfg 9 st
+  | ckResp (st : State) (h0 : credsOk cfg = false) (m : Bytes) (w1 : RealWorld) (c1 : AuthServer.CookieSt)
+      (ho : O1Challenge cfg m w1 c1) (hc : CBase st.c (authAt cfg.unix 1)) (hb : SBase cfg st.s)
+      (hs : st.s.srv = (o1 cfg).srv) (ha : accepts st.s.log = [])
+      (q1 : st.c2s = reply cfg ++ [13, 10]) (q2 : st.s2c = []) : Phase cfg 8 st
+  | rej1 (st : State) (h0 : credsOk cfg = false) (h1 : keyringUsable cfg = false)
+      (hc : CBase st.c (authAt cfg.unix 1)) (hb : SBase cfg st.s)
+      (hs : st.s.srv.state = .waitingForAuth ∧ st.s.srv.rejects = 2) (ha : accepts st.s.log = [])
+      (q1 : st.s2c = AuthServer.rejectLine real ++ [13, 10]) (q2 : st.c2s = []) : Phase cfg 7 st
+  | auth2 (st : State) (h0 : credsOk cfg = false) (h1 : keyringUsable cfg = false)
+      (hc : CBase st.c (authAt cfg.unix 2)) (hb : SBase cfg st.s)
+      (hs : st.s.srv.state = .waitingForAuth ∧ st.s.srv.rejects = 2) (ha : accepts st.s.log = [])
+      (q1 : st.c2s = AuthServer.authLineOf (lit "ANONYMOUS") (some (lit "txdbus")) ++ [13, 10]) (q2 : st.s2c = []) :
+      Phase cfg 6 st
+
+/-- The client has authenticated: BEGIN and the Hello call are queued for the bus, which still waits for BEGIN.
+`x` is what the bus has read of `BEGIN\r\n` so far. -/
+structure BeginSent (cfg : Cfg) (st : State) : Prop where
+  cAuth : st.c.authenticated = true
+  cOpen : st.c.disconnecting = false
+  cMech : st.c.auth.authMech = some (mechAt (expectedMech cfg))
+  cBegin : (sends st.c.trace).count lBEGIN = 1
+  cBin : st.c.binary = []
+  srv : SAccepted cfg (expectedMech cfg) st.s
+  q1 : st.c2s = lBEGIN ++ 13 :: 10 :: cfg.hello
+  q2 : st.s2c = []
+
+/-- Both sides have authenticated; what is left of the Hello call is queued. -/
+structure Done (cfg : Cfg) (st : State) : Prop where
+  cAuth : st.c.authenticated = true
+  cOpen : st.c.disconnecting = false
+  cMech : st.c.auth.authMech = some (mechAt (expectedMech cfg))
+  cBegin : (sends st.c.trace).count lBEGIN = 1
+  cBin : st.c.binary = []
+  sAuth : st.s.authenticated = true
+  sOpen : st.s.closed = false
+  sAlive : st.s.crashed = false
+  acc : accepts st.s.log = [mechAt (expectedMech cfg)]
+  okSent : (wOk ++ cfg.guid) ∈ st.s.sent
+  guid : st.s.guid.isSome = true
+  bin : st.s.binary ++ st.c2s = cfg.hello
+  q2 : st.s2c = []
+
+/-! ## one line delivered: what changes -/
+
+theorem accepts_snoc (log : List AuthServer.Ev) (s : Server RealWorld Inst) (l : Bytes) (o : Out RealWorld Inst) :
+    accepts (log ++ [AuthServer.evOf s l o]) =
+      accepts log ++ (match o.mech with
+                      | some (n, .accept) => [n]
+                      | _ => []) := by
+  rw [accepts_append]
+  congr 1
+
+/-- The bus reads the line in flight; its authenticator answers `o` without raising or authenticating. -/
+theorem srv_step (cfg : Cfg) (st : State) (l : Bytes) (o : Out RealWorld Inst) (hb : SBase cfg st.s)
+    (hq : st.c2s = l ++ [13, 10]) (hq2 : st.s2c = []) (hl : NoCR l) (hlen : l.length ≤ maxAuthLength)
+    (ho : handle real st.s.srv l = o) (hres : o.res = .ok) (hna : o.srv.authenticated = false)
+    (hg : o.srv.serverGuid = cfg.guid) :
+    (lstepS st).c = st.c ∧ SBase cfg (lstepS st).s ∧ (lstepS st).s.srv = o.srv ∧
+    (lstepS st).s.log = st.s.log ++ [AuthServer.evOf st.s.srv l o] ∧
+    (lstepS st).s.sent = st.s.sent ++ o.sent ∧ (lstepS st).c2s = [] ∧ (lstepS st).s2c = wireS o.sent := by
+  have h := feedS_line cfg st l hb hq hl hlen (by rw [ho]; exact hres) (by rw [ho]; exact hna)
+  rw [ho] at h
+  rw [h]
+  refine ⟨rfl, ⟨hb.first, rfl, hb.open_, hb.alive, hb.unauth, hna, hg, hb.bin⟩, rfl, rfl, rfl, rfl, ?_⟩
+  show st.s2c ++ wireS o.sent = wireS o.sent
+  rw [hq2]; rfl
+
+/-- The client reads the line in flight and answers with one line that is not BEGIN. -/
+theorem cli_step (cfg : Cfg) (st : State) (l r : Bytes) (a a' : AuthClient.Auth) (hb : CBase st.c a)
+    (hq : st.s2c = l ++ [13, 10]) (hq2 : st.c2s = []) (hl : NoCR l) (hlen : l.length ≤ AuthClient.maxAuth)
+    (hh : AuthClient.handleAuthMessage (envOf cfg st.s.srv.world) a l = .ok (a', [r]))
+    (hna : a'.authenticated = false) (hr : r ≠ lBEGIN) :
+    (lstepC cfg st).s = st.s ∧ CBase (lstepC cfg st).c a' ∧ (lstepC cfg st).s2c = [] ∧
+    (lstepC cfg st).c2s = r ++ [13, 10] := by
+  rw [feedC_line cfg st l r a a' hb hq hl hlen hh hna]
+  refine ⟨rfl, ⟨rfl, hb.open_, hb.unauth, hb.buf, hb.bin, ?_, ?_⟩, rfl, ?_⟩
+  · show lBEGIN ∉ sends (st.c.trace ++ [Ev.recv l] ++ [r].map Ev.send)
+    rw [AuthClient.sends_append, AuthClient.sends_append]
+    simp only [List.map, sends, List.append_nil, List.mem_append, List.mem_singleton]
+    intro h
+    rcases h with h | h
+    · exact hb.noBegin h
+    · exact hr h.symm
+  · show Ev.authenticated ∉ st.c.trace ++ [Ev.recv l] ++ [r].map Ev.send
+    simp only [List.map, List.mem_append, List.mem_singleton, List.mem_cons, List.not_mem_nil, or_false]
+    intro h
+    rcases h with (h | h) | h
+    · exact hb.noA h
+    · cases h
+    · cases h
+  · show st.c2s ++ (r ++ [13, 10]) = r ++ [13, 10]
+    rw [hq2]; rfl
+
+/-- The client reads the line in flight and answers BEGIN: it is authenticated and writes the Hello call. -/
+theorem cli_step_begin (cfg : Cfg) (st : State) (l : Bytes) (a a' : AuthClient.Auth) (hb : CBase st.c a)
+    (hq : st.s2c = l ++ [13, 10]) (hq2 : st.c2s = []) (hl : NoCR l) (hlen : l.length ≤ AuthClient.maxAuth)
+    (hh : AuthClient.handleAuthMessage (envOf cfg st.s.srv.world) a l = .ok (a', [lBEGIN]))
+    (hna : a'.authenticated = true) :
+    (lstepC cfg st).s = st.s ∧ (lstepC cfg st).c.authenticated = true ∧ (lstepC cfg st).c.disconnecting = false ∧
+    (lstepC cfg st).c.auth = a' ∧ (sends (lstepC cfg st).c.trace).count lBEGIN = 1 ∧
+    (lstepC cfg st).c.binary = [] ∧ (lstepC cfg st).s2c = [] ∧
+    (lstepC cfg st).c2s = lBEGIN ++ 13 :: 10 :: cfg.hello := by
+  rw [feedC_success cfg st l lBEGIN a a' hb hq hl hlen hh hna]
+  refine ⟨rfl, rfl, hb.open_, rfl, ?_, rfl, rfl, ?_⟩
+  · show (sends (st.c.trace ++ [Ev.recv l] ++ [lBEGIN].map Ev.send ++ [Ev.authenticated])).count lBEGIN = 1
+    rw [AuthClient.sends_append, AuthClient.sends_append, AuthClient.sends_append]
+    simp only [List.map, sends, List.append_nil, List.count_append, List.count_singleton_self]
+    have : (sends st.c.trace).count lBEGIN = 0 := List.count_eq_zero.2 hb.noBegin
+    simp [this]
+  · show st.c2s ++ (lBEGIN ++ 13 :: 10 :: cfg.hello) = lBEGIN ++ 13 :: 10 :: cfg.hello
+    rw [hq2]; rfl
+
+/-! ## the lines are clean and fit -/
+
+theorem maxAuth_eq : AuthClient.maxAuth = 16384 := rfl
+theorem maxAuthLength_eq : maxAuthLength = 16384 := rfl
+
+theorem clean_const :
+    (NoCR (lit "AUTH EXTERNAL") ∧ (lit "AUTH EXTERNAL").length ≤ 100) ∧
+    (NoCR wData ∧ wData.length ≤ 100) ∧ (NoCR lDATA ∧ lDATA.length ≤ 100) ∧
+    (NoCR lNEGOTIATE ∧ lNEGOTIATE.length ≤ 100) ∧ (NoCR wError ∧ wError.length ≤ 100) ∧
+    (NoCR (AuthServer.rejectLine real) ∧ (AuthServer.rejectLine real).length ≤ 100) ∧
+    (NoCR (AuthServer.authLineOf (lit "ANONYMOUS") (some (lit "txdbus"))) ∧
+      (AuthServer.authLineOf (lit "ANONYMOUS") (some (lit "txdbus"))).length ≤ 100) ∧
+    (NoCR lBEGIN ∧ lBEGIN.length ≤ 100) := by
+  rw [rejectLine_eq]
+  unfold NoCR
+  decide
+
+theorem clean_ok {cfg : Cfg} (hyp : Hyp cfg) : NoCR (wOk ++ cfg.guid) ∧ (wOk ++ cfg.guid).length ≤ 16384 := by
+  obtain ⟨g, _, hg, hlen⟩ := hyp.guid
+  rw [hg]
+  refine ⟨AuthServer.noCR_append _ _ (by unfold NoCR; decide) (noCR_hexlify g), ?_⟩
+  simp [AuthServer.hexlify_length, wOk]; omega
+
+theorem clean_cookieAuth {cfg : Cfg} (hyp : Hyp cfg) :
+    NoCR (cookieAuthLine cfg.user) ∧ (cookieAuthLine cfg.user).length ≤ 16384 := by
+  refine ⟨AuthServer.noCR_append _ _ (by unfold NoCR; decide) (noCR_hexlify _), ?_⟩
+  have h22 : (lit "AUTH DBUS_COOKIE_SHA1 ").length = 22 := by decide
+  have := hyp.user
+  simp only [cookieAuthLine, List.length_append, AuthServer.hexlify_length, h22]; omega
+
+theorem clean_chal {cfg : Cfg} (hyp : Hyp cfg) {m w1 c1} (h : O1Challenge cfg m w1 c1) :
+    NoCR (chalLine cfg) ∧ (chalLine cfg).length ≤ 16384 := by
+  refine ⟨?_, ?_⟩
+  · rw [chalLine_eq h]
+    exact AuthServer.noCR_append _ _ (by unfold NoCR; decide) (noCR_hexlify _)
+  · apply hyp.challenge
+    rw [chalLine_eq h, h.1]; simp
+
+theorem clean_reply {cfg : Cfg} (hyp : Hyp cfg) {m w1 c1} (h : O1Challenge cfg m w1 c1) :
+    NoCR (reply cfg) ∧ (reply cfg).length ≤ 16384 ∧ reply cfg ≠ lBEGIN := by
+  rcases reply_shape hyp h with ⟨y, hy, _, _, hlen⟩ | ⟨e, he⟩
+  · rw [hy]
+    refine ⟨AuthServer.noCR_append _ _ (by unfold NoCR; decide) (noCR_hexlify _), ?_, ?_⟩
+    · simp [AuthServer.hexlify_length, wData, hlen]
+    · intro hh
+      have := congrArg List.head? hh
+      simp [wData, lBEGIN] at this
+  · rw [he]
+    refine ⟨AuthServer.noCR_append _ _ (by unfold NoCR; decide) (hyp.errText e).1, ?_, ?_⟩
+    · have := (hyp.errText e).2
+      simp [wErrorSp]; omega
+    · intro hh
+      have := congrArg List.head? hh
+      simp [wErrorSp, lBEGIN] at this
+
+theorem cookieAuthLine_ne_begin (u : Bytes) : cookieAuthLine u ≠ lBEGIN := by
+  intro hh
+  have h1 : cookieAuthLine u = 65 :: (lit "UTH DBUS_COOKIE_SHA1 " ++ AuthServer.hexlify u) := rfl
+  rw [h1] at hh
+  have := congrArg List.head? hh
+  simp [lBEGIN] at this
+
+theorem accepts_tail_nil {mm : Option (Bytes × AuthServer.Outcome)} (h : ∀ n, mm ≠ some (n, .accept)) :
+    (match mm with
+     | some (n, .accept) => [n]
+     | _ => ([] : List Bytes)) = [] := by
+  split
+  · rename_i n; exact absurd rfl (h n)
+  · rfl
+
+theorem credsOk_true {cfg : Cfg} (h : credsOk cfg = true) :
+    ∃ uid e, cfg.w0.cfg.creds = some uid ∧ getpwuidI cfg.w0.cfg uid = some e := by
+  unfold credsOk at h
+  cases hc : cfg.w0.cfg.creds with
+  | none => rw [hc] at h; cases h
+  | some uid =>
+    rw [hc] at h
+    simp only at h
+    obtain ⟨e, he⟩ := Option.isSome_iff_exists.1 h
+    exact ⟨uid, e, rfl, he⟩
+
+theorem credsOk_false {cfg : Cfg} (h : credsOk cfg = false) :
+    ∀ uid, cfg.w0.cfg.creds = some uid → getpwuidI cfg.w0.cfg uid = none := by
+  intro uid hc
+  unfold credsOk at h
+  rw [hc] at h
+  simp only at h
+  cases hg : getpwuidI cfg.w0.cfg uid with
+  | none => rfl
+  | some e => rw [hg] at h; cases h
+
+/-! ## the transitions -/
+
+/-- Where delivering the line in flight leads: a phase of smaller rank, or the client has authenticated. -/
+def Next (cfg : Cfg) (r : Nat) (st : State) : Prop := (∃ r', r' < r ∧ Phase cfg r' st) ∨ BeginSent cfg st
+
+theorem lit_consts :
+    lDATA = lit "DATA" ∧ lNEGOTIATE = lit "NEGOTIATE_UNIX_FD" ∧ lBEGIN = lit "BEGIN" ∧
+    lit "EXTERNAL" = mechAt 0 ∧ lit "DBUS_COOKIE_SHA1" = mechAt 1 ∧ lit "ANONYMOUS" = mechAt 2 := by decide
+
+theorem expectedMech_0 {cfg : Cfg} (h : credsOk cfg = true) : expectedMech cfg = 0 := by
+  simp [expectedMech, h]
+theorem expectedMech_1 {cfg : Cfg} (h0 : credsOk cfg = false) (h1 : keyringUsable cfg = true) :
+    expectedMech cfg = 1 := by simp [expectedMech, h0, h1]
+theorem expectedMech_2 {cfg : Cfg} (h0 : credsOk cfg = false) (h1 : keyringUsable cfg = false) :
+    expectedMech cfg = 2 := by simp [expectedMech, h0, h1]
+
+/-- `AUTH EXTERNAL` reaches the bus. -/
+theorem next_auth0 {cfg : Cfg} (st : State) (hc : CBase st.c (authAt cfg.unix 0)) (hb : SBase cfg st.s)
+    (hs : st.s.srv = srv0 cfg) (ha : accepts st.s.log = [])
+    (q1 : st.c2s = lit "AUTH EXTERNAL" ++ [13, 10]) (q2 : st.s2c = []) : Next cfg 12 (lstepS st) := by
+  left
+  cases hok : credsOk cfg with
+  | true =>
+    obtain ⟨uid, e, h1, h2⟩ := credsOk_true hok
+    have ho := sv_auth_ext_ok (srv0 cfg) uid e rfl h1 h2
+    rw [← hs] at ho
+    obtain ⟨k1, k2, k3, k4, k5, k6, k7⟩ := srv_step cfg st _ _ hb q1 q2 clean_const.1.1
+      (by have := clean_const.1.2; rw [maxAuthLength_eq]; omega) ho rfl (by show st.s.srv.authenticated = false; exact hb.srvUnauth)
+      (by show st.s.srv.serverGuid = cfg.guid; exact hb.guid)
+    refine ⟨11, by decide, Phase.extChal _ uid e h1 h2 (k1 ▸ hc) k2 ?_ ?_ (by rw [k7]; rfl) k6⟩
+    · rw [k3, hs]; rfl
+    · rw [k4, accepts_snoc, ha]; rfl
+  | false =>
+    have ho := sv_auth_ext_rej (srv0 cfg) rfl (credsOk_false hok) (by show 0 + 1 ≤ maxRejects; decide)
+    rw [← hs] at ho
+    obtain ⟨k1, k2, k3, k4, k5, k6, k7⟩ := srv_step cfg st _ _ hb q1 q2 clean_const.1.1
+      (by have := clean_const.1.2; rw [maxAuthLength_eq]; omega) ho rfl (by show st.s.srv.authenticated = false; exact hb.srvUnauth)
+      (by show st.s.srv.serverGuid = cfg.guid; exact hb.guid)
+    refine ⟨11, by decide, Phase.rej0 _ hok (k1 ▸ hc) k2 ?_ ?_ (by rw [k7]; rfl) k6⟩
+    · rw [k3, hs]; rfl
+    · rw [k4, accepts_snoc, ha]; rfl
+
+/-- The empty EXTERNAL challenge reaches the client. -/
+theorem next_extChal {cfg : Cfg} (st : State) (uid : Int) (e : AuthServer.PwEnt) (h1 : cfg.w0.cfg.creds = some uid)
+    (h2 : getpwuidI cfg.w0.cfg uid = some e) (hc : CBase st.c (authAt cfg.unix 0)) (hb : SBase cfg st.s)
+    (hs : st.s.srv = srvExt cfg uid) (ha : accepts st.s.log = [])
+    (q1 : st.s2c = wData ++ [13, 10]) (q2 : st.c2s = []) : Next cfg 11 (lstepC cfg st) := by
+  left
+  have hh := cl_data_ext (envOf cfg st.s.srv.world) (authAt cfg.unix 0) [] (authAt_mech cfg.unix 0)
+  rw [List.append_nil] at hh
+  obtain ⟨k1, k2, k3, k4⟩ := cli_step cfg st wData lDATA _ _ hc q1 q2 clean_const.2.1.1
+    (by have := clean_const.2.1.2; rw [maxAuth_eq]; omega) hh (authAt_flags cfg.unix 0).1 (by decide)
+  exact ⟨10, by decide, Phase.extResp _ uid e h1 h2 k2 (k1 ▸ hb) (by rw [k1]; exact hs) (by rw [k1]; exact ha) k4 k3⟩
+
+/-- The client's `DATA` reaches the bus: OK. -/
+theorem next_extResp {cfg : Cfg} (st : State) (uid : Int) (e : AuthServer.PwEnt) (h1 : cfg.w0.cfg.creds = some uid)
+    (h2 : getpwuidI cfg.w0.cfg uid = some e) (hc : CBase st.c (authAt cfg.unix 0)) (hb : SBase cfg st.s)
+    (hs : st.s.srv = srvExt cfg uid) (ha : accepts st.s.log = [])
+    (q1 : st.c2s = lDATA ++ [13, 10]) (q2 : st.s2c = []) : Next cfg 10 (lstepS st) := by
+  left
+  have ho := sv_data_ext (srvExt cfg uid) uid e rfl rfl h2
+  rw [← hs, ← lit_consts.1] at ho
+  have hg : st.s.srv.serverGuid = cfg.guid := hb.guid
+  obtain ⟨k1, k2, k3, k4, k5, k6, k7⟩ := srv_step cfg st _ _ hb q1 q2 clean_const.2.2.1.1
+    (by have := clean_const.2.2.1.2; rw [maxAuthLength_eq]; omega) ho rfl
+    (by show st.s.srv.authenticated = false; exact hb.srvUnauth) (by show st.s.srv.serverGuid = cfg.guid; exact hg)
+  have hok : credsOk cfg = true := by unfold credsOk; rw [h1]; simp [h2]
+  refine ⟨5, by decide, Phase.okSent _ 0 (k1 ▸ hc) ⟨k2, by rw [k3], ?_, ?_, ?_, (expectedMech_0 hok).symm⟩
+    (by rw [k7, hg]; rfl) k6⟩
+  · refine ⟨lit "EXTERNAL", .ext true (some uid), e.name, by rw [k3], ?_⟩
+    rw [k3]
+    show real.userName st.s.srv.world (.ext true (some uid)) = some e.name
+    rw [hs, AuthServer.real_user_ext]
+    show Option.map (fun x => x.name) (getpwuidI cfg.w0.cfg uid) = some e.name
+    rw [h2]; rfl
+  · rw [k4, accepts_snoc, ha, lit_consts.2.2.2.1]; rfl
+  · rw [k5, hg]; simp
+
+/-- OK reaches the client: NEGOTIATE_UNIX_FD on a UNIX transport, BEGIN otherwise. -/
+theorem next_okSent {cfg : Cfg} (hyp : Hyp cfg) (st : State) (i : Nat) (hc : CBase st.c (authAt cfg.unix i))
+    (hs : SAccepted cfg i st.s) (q1 : st.s2c = (wOk ++ cfg.guid) ++ [13, 10]) (q2 : st.c2s = []) :
+    Next cfg 5 (lstepC cfg st) := by
+  obtain ⟨g, hg0, hg, _⟩ := hyp.guid
+  have hh := cl_ok (envOf cfg st.s.srv.world) (authAt cfg.unix i) g hg0
+  rw [hexlify_eq, ← hg] at hh
+  have hcl := clean_ok hyp
+  cases hu : cfg.unix with
+  | true =>
+    left
+    rw [hu] at hh hc
+    rw [if_pos (authAt_unix true i)] at hh
+    obtain ⟨k1, k2, k3, k4⟩ := cli_step cfg st _ lNEGOTIATE _ _ hc q1 q2 hcl.1 (by rw [maxAuth_eq]; exact hcl.2) hh
+      (authAt_flags true i).1 (by decide)
+    refine ⟨4, by decide, Phase.negSent _ i g hu ?_ (k1 ▸ hs) k4 k3⟩
+    rw [hu]; exact k2
+  | false =>
+    right
+    rw [hu] at hh hc
+    rw [if_neg (by rw [authAt_unix]; decide)] at hh
+    obtain ⟨k1, k2, k3, k4, k5, k6, k7, k8⟩ := cli_step_begin cfg st _ _ _ hc q1 q2 hcl.1
+      (by rw [maxAuth_eq]; exact hcl.2) hh rfl
+    refine ⟨k2, k3, ?_, k5, k6, ?_, k8, k7⟩
+    · rw [k4, ← hs.idx]; exact authAt_mech false i
+    · rw [k1, ← hs.idx]; exact hs
+
+/-- NEGOTIATE_UNIX_FD reaches the bus: ERROR. -/
+theorem next_negSent {cfg : Cfg} (st : State) (i : Nat) (g : Bytes) (hu : cfg.unix = true)
+    (hc : CBase st.c (authNeg cfg.unix i g)) (hs : SAccepted cfg i st.s)
+    (q1 : st.c2s = lNEGOTIATE ++ [13, 10]) (q2 : st.s2c = []) : Next cfg 4 (lstepS st) := by
+  left
+  have ho := sv_negotiate st.s.srv
+  rw [← lit_consts.2.1] at ho
+  obtain ⟨k1, k2, k3, k4, k5, k6, k7⟩ := srv_step cfg st _ _ hs.base q1 q2 clean_const.2.2.2.1.1
+    (by have := clean_const.2.2.2.1.2; rw [maxAuthLength_eq]; omega) ho rfl hs.base.srvUnauth hs.base.guid
+  obtain ⟨n, inst, u, hcur, hname⟩ := hs.cur
+  refine ⟨3, by decide, Phase.negErr _ i g hu (k1 ▸ hc)
+    ⟨k2, by rw [k3]; exact hs.state, ⟨n, inst, u, by rw [k3]; exact hcur, by rw [k3]; exact hname⟩, ?_, ?_, hs.idx⟩
+    (by rw [k7]; rfl) k6⟩
+  · rw [k4, accepts_snoc, hs.acc]; rfl
+  · rw [k5]; exact List.mem_append_left _ hs.okSent
+
+/-- The bus's ERROR reaches the client, which was negotiating: BEGIN. -/
+theorem next_negErr {cfg : Cfg} (st : State) (i : Nat) (g : Bytes) (hu : cfg.unix = true)
+    (hc : CBase st.c (authNeg cfg.unix i g)) (hs : SAccepted cfg i st.s)
+    (q1 : st.s2c = wError ++ [13, 10]) (q2 : st.c2s = []) : Next cfg 3 (lstepC cfg st) := by
+  right
+  have hh := cl_error_neg (envOf cfg st.s.srv.world) (authNeg cfg.unix i g) rfl
+  obtain ⟨k1, k2, k3, k4, k5, k6, k7, k8⟩ := cli_step_begin cfg st _ _ _ hc q1 q2 clean_const.2.2.2.2.1.1
+    (by have := clean_const.2.2.2.2.1.2; rw [maxAuth_eq]; omega) hh rfl
+  refine ⟨k2, k3, ?_, k5, k6, ?_, k8, k7⟩
+  · rw [k4, ← hs.idx]; exact authAt_mech cfg.unix i
+  · rw [k1, ← hs.idx]; exact hs
+
+/-- REJECTED (EXTERNAL) reaches the client: `AUTH DBUS_COOKIE_SHA1 <hex user>`. -/
+theorem next_rej0 {cfg : Cfg} (hyp : Hyp cfg) (st : State) (h0 : credsOk cfg = false)
+    (hc : CBase st.c (authAt cfg.unix 0)) (hb : SBase cfg st.s) (hs : st.s.srv = srv1 cfg)
+    (ha : accepts st.s.log = []) (q1 : st.s2c = AuthServer.rejectLine real ++ [13, 10]) (q2 : st.c2s = []) :
+    Next cfg 11 (lstepC cfg st) := by
+  left
+  have hh := cl_rejected (envOf cfg st.s.srv.world) cfg.unix 0 (by decide)
+  rw [authLine_cookie] at hh
+  obtain ⟨k1, k2, k3, k4⟩ := cli_step cfg st _ _ _ _ hc q1 q2 clean_const.2.2.2.2.2.1.1
+    (by have := clean_const.2.2.2.2.2.1.2; rw [maxAuth_eq]; omega) hh (authAt_flags cfg.unix 1).1
+    (cookieAuthLine_ne_begin _)
+  exact ⟨10, by decide, Phase.auth1 _ h0 k2 (k1 ▸ hb) (by rw [k1]; exact hs) (by rw [k1]; exact ha) k4 k3⟩
+
+/-- `AUTH DBUS_COOKIE_SHA1` reaches the bus: REJECTED, or the challenge. -/
+theorem next_auth1 {cfg : Cfg} (hyp : Hyp cfg) (st : State) (h0 : credsOk cfg = false)
+    (hc : CBase st.c (authAt cfg.unix 1)) (hb : SBase cfg st.s) (hs : st.s.srv = srv1 cfg)
+    (ha : accepts st.s.log = []) (q1 : st.c2s = cookieAuthLine cfg.user ++ [13, 10]) (q2 : st.s2c = []) :
+    Next cfg 10 (lstepS st) := by
+  left
+  have ho : handle real st.s.srv (cookieAuthLine cfg.user) = o1 cfg := by rw [hs]; rfl
+  have hcl := clean_cookieAuth hyp
+  rcases o1_cases cfg with ⟨hch, w', mm, h1, hm⟩ | ⟨hch, m, w1, c1, h1⟩
+  · obtain ⟨k1, k2, k3, k4, k5, k6, k7⟩ := srv_step cfg st _ _ hb q1 q2 hcl.1 (by rw [maxAuthLength_eq]; exact hcl.2)
+      ho (by rw [h1]) (by rw [h1]; rfl) (by rw [h1]; rfl)
+    have hku : keyringUsable cfg = false := by unfold keyringUsable; rw [hch]; rfl
+    refine ⟨7, by decide, Phase.rej1 _ h0 hku (k1 ▸ hc) k2 ?_ ?_ (by rw [k7, h1]; rfl) k6⟩
+    · rw [k3, h1]; exact ⟨rfl, rfl⟩
+    · rw [k4, accepts_snoc, ha, h1]; exact accepts_tail_nil hm
+  · obtain ⟨k1, k2, k3, k4, k5, k6, k7⟩ := srv_step cfg st _ _ hb q1 q2 hcl.1 (by rw [maxAuthLength_eq]; exact hcl.2)
+      ho (by rw [h1.1]) (by rw [h1.1]; rfl) (by rw [h1.1]; rfl)
+    refine ⟨9, by decide, Phase.ckChal _ h0 m w1 c1 h1 (k1 ▸ hc) k2 k3 ?_ ?_ k6⟩
+    · rw [k4, accepts_snoc, ha, h1.1]; rfl
+    · rw [k7, chalLine_eq h1, h1.1]; rfl
+
+/-- The challenge reaches the client: the response, or ERROR. -/
+theorem next_ckChal {cfg : Cfg} (hyp : Hyp cfg) (st : State) (h0 : credsOk cfg = false) (m : Bytes) (w1 : RealWorld)
+    (c1 : AuthServer.CookieSt) (ho : O1Challenge cfg m w1 c1) (hc : CBase st.c (authAt cfg.unix 1))
+    (hb : SBase cfg st.s) (hs : st.s.srv = (o1 cfg).srv) (ha : accepts st.s.log = [])
+    (q1 : st.s2c = chalLine cfg ++ [13, 10]) (q2 : st.c2s = []) : Next cfg 9 (lstepC cfg st) := by
+  left
+  have hw : st.s.srv.world = w1 := by rw [hs]; exact o1_world ho
+  have hh := (reply_spec ho).1
+  rw [← hw] at hh
+  have hcl := clean_chal hyp ho
+  have hcr := clean_reply hyp ho
+  obtain ⟨k1, k2, k3, k4⟩ := cli_step cfg st _ _ _ _ hc q1 q2 hcl.1 (by rw [maxAuth_eq]; exact hcl.2) hh
+    (authAt_flags cfg.unix 1).1 hcr.2.2
+  exact ⟨8, by decide, Phase.ckResp _ h0 m w1 c1 ho k2 (k1 ▸ hb) (by rw [k1]; exact hs) (by rw [k1]; exact ha) k4 k3⟩
+
+/-- The client's answer reaches the bus: OK, or REJECTED. -/
+theorem next_ckResp {cfg : Cfg} (hyp : Hyp cfg) (st : State) (h0 : credsOk cfg = false) (m : Bytes) (w1 : RealWorld)
+    (c1 : AuthServer.CookieSt) (ho : O1Challenge cfg m w1 c1) (hc : CBase st.c (authAt cfg.unix 1))
+    (hb : SBase cfg st.s) (hs : st.s.srv = (o1 cfg).srv) (ha : accepts st.s.log = [])
+    (q1 : st.c2s = reply cfg ++ [13, 10]) (q2 : st.s2c = []) : Next cfg 8 (lstepS st) := by
+  left
+  have hh : handle real st.s.srv (reply cfg) = o2 cfg := by rw [hs]; rfl
+  have hcr := clean_reply hyp ho
+  have hua : (o1 cfg).srv.authenticated = false := by rw [ho.1]; rfl
+  have hgu : (o1 cfg).srv.serverGuid = cfg.guid := by rw [ho.1]; rfl
+  rcases o2_cases hyp ho with ⟨hku, w2, c2, u, h2, hu⟩ | ⟨hku, w', mm, h2, hm⟩
+  · obtain ⟨k1, k2, k3, k4, k5, k6, k7⟩ := srv_step cfg st _ _ hb q1 q2 hcr.1 (by rw [maxAuthLength_eq]; exact hcr.2.1)
+      hh (by rw [h2]) (by rw [h2]; exact hua) (by rw [h2]; exact hgu)
+    refine ⟨5, by decide, Phase.okSent _ 1 (k1 ▸ hc)
+      ⟨k2, by rw [k3, h2], ?_, ?_, ?_, (expectedMech_1 h0 hku).symm⟩ (by rw [k7, h2]; rfl) k6⟩
+    · exact ⟨lit "DBUS_COOKIE_SHA1", .cookie c2, u, by rw [k3, h2], by rw [k3, h2]; exact hu⟩
+    · rw [k4, accepts_snoc, ha, h2, lit_consts.2.2.2.2.1]; rfl
+    · rw [k5, h2]; simp
+  · obtain ⟨k1, k2, k3, k4, k5, k6, k7⟩ := srv_step cfg st _ _ hb q1 q2 hcr.1 (by rw [maxAuthLength_eq]; exact hcr.2.1)
+      hh (by rw [h2]) (by rw [h2]; exact hua) (by rw [h2]; exact hgu)
+    refine ⟨7, by decide, Phase.rej1 _ h0 hku (k1 ▸ hc) k2 ?_ ?_ (by rw [k7, h2]; rfl) k6⟩
+    · rw [k3, h2]; exact ⟨rfl, rfl⟩
+    · rw [k4, accepts_snoc, ha, h2]; exact accepts_tail_nil hm
+
+/-- REJECTED (DBUS_COOKIE_SHA1) reaches the client: `AUTH ANONYMOUS 747864627573`. -/
+theorem next_rej1 {cfg : Cfg} (st : State) (h0 : credsOk cfg = false) (h1 : keyringUsable cfg = false)
+    (hc : CBase st.c (authAt cfg.unix 1)) (hb : SBase cfg st.s)
+    (hs : st.s.srv.state = .waitingForAuth ∧ st.s.srv.rejects = 2) (ha : accepts st.s.log = [])
+    (q1 : st.s2c = AuthServer.rejectLine real ++ [13, 10]) (q2 : st.c2s = []) : Next cfg 7 (lstepC cfg st) := by
+  left
+  have hh := cl_rejected (envOf cfg st.s.srv.world) cfg.unix 1 (by decide)
+  rw [authLine_anon] at hh
+  obtain ⟨k1, k2, k3, k4⟩ := cli_step cfg st _ _ _ _ hc q1 q2 clean_const.2.2.2.2.2.1.1
+    (by have := clean_const.2.2.2.2.2.1.2; rw [maxAuth_eq]; omega) hh (authAt_flags cfg.unix 2).1 (by decide)
+  exact ⟨6, by decide, Phase.auth2 _ h0 h1 k2 (k1 ▸ hb) (by rw [k1]; exact hs) (by rw [k1]; exact ha) k4 k3⟩
+
+/-- `AUTH ANONYMOUS` reaches the bus: OK. -/
+theorem next_auth2 {cfg : Cfg} (st : State) (h0 : credsOk cfg = false) (h1 : keyringUsable cfg = false)
+    (hc : CBase st.c (authAt cfg.unix 2)) (hb : SBase cfg st.s)
+    (hs : st.s.srv.state = .waitingForAuth ∧ st.s.srv.rejects = 2) (ha : accepts st.s.log = [])
+    (q1 : st.c2s = AuthServer.authLineOf (lit "ANONYMOUS") (some (lit "txdbus")) ++ [13, 10]) (q2 : st.s2c = []) :
+    Next cfg 6 (lstepS st) := by
+  left
+  have ho := sv_auth_anon st.s.srv hs.1
+  have hg : st.s.srv.serverGuid = cfg.guid := hb.guid
+  obtain ⟨k1, k2, k3, k4, k5, k6, k7⟩ := srv_step cfg st _ _ hb q1 q2 clean_const.2.2.2.2.2.2.1.1
+    (by have := clean_const.2.2.2.2.2.2.1.2; rw [maxAuthLength_eq]; omega) ho rfl
+    (by show st.s.srv.authenticated = false; exact hb.srvUnauth) (by show st.s.srv.serverGuid = cfg.guid; exact hg)
+  refine ⟨5, by decide, Phase.okSent _ 2 (k1 ▸ hc)
+    ⟨k2, by rw [k3], ?_, ?_, ?_, (expectedMech_2 h0 h1).symm⟩ (by rw [k7, hg]; rfl) k6⟩
+  · exact ⟨lit "ANONYMOUS", .anon, AuthServer.anonymousUser, by rw [k3], by rw [k3]; rfl⟩
+  · rw [k4, accepts_snoc, ha, lit_consts.2.2.2.2.2]; rfl
+  · rw [k5, hg]; simp
 
 end Txdbus.Handshake2
